@@ -901,8 +901,14 @@ pub fn parse(lex_tokens: &Vec<LexerToken>) -> Result<ParseResult, CompilerError>
             | SecondaryDefinition::UnaryPrefix => true,
             _ => false,
         };
+        // inside of a group separators are treated as white space
+        let in_plain_group = match under_group.and_then(|g| nodes.get(g)) {
+            Some(group_node) => group_node.definition == Definition::Group,
+            None => false,
+        };
         let is_trivia = match secondary_definition {
             SecondaryDefinition::Whitespace | SecondaryDefinition::Annotation => true,
+            SecondaryDefinition::Subexpression => in_plain_group,
             _ => false,
         };
         if waiting_for_operand && definition == Definition::ExpressionTerminator {
